@@ -114,12 +114,17 @@ def build_unit(args):
     if os.path.exists(exe):
         return exe, None, True
     os.makedirs(d, exist_ok=True)
-    src = os.path.join(d, "unit.cpp")
+    # two jobs of one run can share a unit: private file names, atomic publish
+    import threading
+    uniq = "%d_%d" % (os.getpid(), threading.get_ident())
+    src = os.path.join(d, "unit_%s.cpp" % uniq)
     open(src, "w").write(text)
-    r = sh(["g++"] + CXXFLAGS + extra + ["-I" + os.path.join(REPO, "src"), "-I" + os.path.join(ROOT, "harness"), src, "-o", exe + ".tmp"], timeout=600)
+    tmp = exe + ".tmp" + uniq
+    r = sh(["g++"] + CXXFLAGS + extra + ["-I" + os.path.join(REPO, "src"), "-I" + os.path.join(ROOT, "harness"), src, "-o", tmp], timeout=600)
+    os.remove(src)
     if r.returncode != 0:
         return None, r.stdout, False
-    os.replace(exe + ".tmp", exe)
+    os.replace(tmp, exe)
     return exe, None, False
 
 
